@@ -240,7 +240,21 @@ class C07(CheckBase):
                             v['title'] = bytes(rng.choice([0x09, 0x0A, 0x0D, 0x1B, 0x7F, 0x80 | 0x41, 0x41, 0x20]) for _ in range(rng.randint(1, 12)))
         elif src == 'genflux':
             fc, dmg = fluxwork.gen_hostile_flux(rng, sides=rng.weighted([(4, 1), (1, 2)]))
-            surfaces = [dd.gen_surface(rng, variant='acorn', geom=(fc['tracks'], fc['spt']), img_id=8, side=sd).to_json() for sd in range(fc['sides'])]
+            variants = ['acorn', 'acorn', 'watford'] + (['opus', 'opus'] if fc['spt'] == 18 else [])
+            surfaces = [dd.gen_surface(rng, variant=rng.choice(variants), geom=(fc['tracks'], fc['spt']), img_id=8, side=sd).to_json() for sd in range(fc['sides'])]
+            if rng.chance(0.4):
+                # a catalogue sector (track 0: sectors 0/1, Watford 2/3, the Opus volume catalogues and sector 16) that
+                # cannot be decoded: the file-system probes meet an unreadable sector exactly where they look first
+                sd = rng.below(fc['sides'])
+                # (a track lacking its first or last record is still accepted by the container readers; one lacking a
+                # record in between is refused outright)
+                rec = rng.weighted([(6, 0), (2, 1), (1, 2), (1, 3), (2, 16 % fc['spt']), (2, fc['spt'] - 1), (1, rng.below(fc['spt']))])
+                if rng.chance(0.6):
+                    # ... and nothing else wrong with the image
+                    dmg.clear()
+                    fc['marks'] = {}
+                dmg.setdefault('%d:0' % sd, []).append({'k': 'drop', 'region': rng.choice(['data', 'datamark', 'idmark', 'datacrc']), 'rec': rec,
+                                                        'off': rng.below(4000), 'len': 16, 'v': 0})
             ext = 'mfm' if fc['container'] == 'mfm' else 'hfe'
             image = {'genflux': fc, 'surfaces': surfaces, 'damage': dmg, 'ext': ext}
             size = 400000
